@@ -24,7 +24,7 @@ def meta(tier):
         'rule': '(i) field range: width in 1..17,24,31,32,33,63,64 x byte_align x endianness x opcode width in {1,3,4,8} x operand kind '
                 '(numeric argument, indirect-register offset, index of an indexed register, numeric_bytecode code) x values '
                 '{0,1,2^(w-1)-1,2^(w-1),2^w-1,2^w,-1,-2^(w-1),-2^(w-1)-1}; (ii) numeric_bytecode min/max grid x values min-1..max+1; '
-                '(iii) numeric enumerations: every key set within {0..4} x values -1..6, as a code enumeration, an argument enumeration, and both at once with different key sets; (iv) address operands / valid_address numerics '
+                '(iii) numeric enumerations: every key set within {0..4} x values -1..6 (as a literal, as constant+offset, behind * / << operators), as a code enumeration, an argument enumeration, and both at once with different key sets; (iv) address operands / valid_address numerics '
                 'against zones on a grid (incl. redefined GLOBAL, named memory_zone) x values s-1,s,e,e+1, written as a number, as a constant and as a constant in parentheses; (v) sliced addresses: slice '
                 'width {4,8,12} x instruction address on both sides of a page boundary x targets in the same / neighbouring pages; (v-b) slice_lsb without match_address_msb: targets inside / beyond the field width from instruction addresses in several pages; '
                 '(vi) relative addresses: (min,max) grid incl. one-sided and absent bounds x offset_from_instruction_end x instruction size {2,3,4} x address x every '
@@ -226,6 +226,9 @@ def shard(acc, tier, idx, n):
                         exp = refenc.encode(ordered)
                     one(acc, isa, 'tst ' + G.lit(v), exp, 'enumeration', yaml=True, why=f'{v} not a key of {sorted(table)}')
                     one(acc, isa, f'tst KQ+{v + 1}', exp, 'enumeration', yaml=True, consts=[('KQ', -1)], why=f'{v} not a key')
+                    # the value decides, not the spelling: the same value behind operators of every precedence
+                    one(acc, isa, f'tst ({v}+4)*2/2-4', exp, 'enumeration', yaml=True, why=f'{v} not a key')
+                    one(acc, isa, f'tst {v + 8}*4/4 - (1<<3)', exp, 'enumeration', yaml=True, why=f'{v} not a key')
                     items.append(('tst ' + G.lit(v), exp, f'{v} not a key of {sorted(table)}'))
                     items.append((f'tst KQ+{v + 1}', exp, f'{v} not a key'))
                 batch(acc, isa, items, 'enumeration', yaml=True, consts=[('KQ', -1)])
